@@ -157,6 +157,15 @@ class C09(Harness):
             zi = f.inverse_transform(z)
             out["tr"] = L(zt.values)
             out["itr"] = L(zi.values)
+        if kind == "multiplexer":
+            # the same object, re-used: another member is selected (and a member's parameter changed), then fit again
+            del log[:]
+            sel2 = (inp["sel"] + 1 + (nb % 2)) % 3
+            f.set_params(selected_forecaster=names[sel2])
+            f.set_params(**{"%s__p" % names[sel2]: 7 + sel2})
+            f.fit(y, fh=fh)
+            p3 = f.predict()
+            out["resel"] = {"sel2": sel2, "fits": [e["who"] for e in log if e["op"] == "fit"], "pred": [L(p3.index), L(p3.values)]}
         if kind == "ensemble":
             g = ENS([("a", Member(p=1))], aggfunc="mode").fit(y, fh=fh)
             try:
@@ -284,6 +293,12 @@ class C09(Harness):
                 if check_index(out["pred2"], c2):
                     for v, h in zip(out["pred2"][1], fh):
                         P.eq("multiplexer-is-selected-member", v, F(p, c2, c2 + h))
+            rs = out["resel"]
+            p2 = 7 + rs["sel2"]
+            P.check("multiplexer-is-selected-member", rs["fits"] == [p2], {"what": "refit after re-selection", "fits": rs["fits"], "want": p2})
+            if check_index(rs["pred"], c1):
+                for v, h in zip(rs["pred"][1], fh):
+                    P.eq("multiplexer-is-selected-member", v, F(p2, c1, c1 + h), {"what": "refit after re-selection"})
         elif kind == "stacking":
             hK = fh[-1]
             log = out["fitlog"]
